@@ -14,7 +14,8 @@ var _ *openfgav1.Userset
 // C14: canonical order. sortByModule is the comparator handed to slices.SortStableFunc.
 
 //@ func sortByModule
-//@   props C14
+//@   -- (C01: the text is byte-stable only if the documented order is a total one)
+//@   props C14 C01
 //@   inline
 //@   ensures unattributed_first: aModule == "" && bModule != "" ==> result < 0
 //@   ensures attributed_last:    aModule != "" && bModule == "" ==> result > 0
@@ -26,11 +27,11 @@ var _ *openfgav1.Userset
 //@                                 ==> ((result < 0 <==> aName < bName) && (result == 0 <==> aName == bName) && (result > 0 <==> bName < aName))
 //@   ensures zero_iff_same_key:  result == 0 <==> (aName == bName && aModule == bModule && (aModule == "" || aFile == bFile))
 
-//@ lemma sortByModule_antisymmetric {C14}: forall an string, bn string, am string, bm string, af string, bf string ::
+//@ lemma sortByModule_antisymmetric {C14,C01}: forall an string, bn string, am string, bm string, af string, bf string ::
 //@     (sortByModule(an, bn, am, bm, af, bf) < 0 <==> sortByModule(bn, an, bm, am, bf, af) > 0)
 //@  && (sortByModule(an, bn, am, bm, af, bf) == 0 <==> sortByModule(bn, an, bm, am, bf, af) == 0)
 
-//@ lemma sortByModule_transitive {C14}: forall an string, bn string, cn string, am string, bm string, cm string, af string, bf string, cf string ::
+//@ lemma sortByModule_transitive {C14,C01}: forall an string, bn string, cn string, am string, bm string, cm string, af string, bf string, cf string ::
 //@     sortByModule(an, bn, am, bm, af, bf) <= 0 && sortByModule(bn, cn, bm, cm, bf, cf) <= 0 ==> sortByModule(an, cn, am, cm, af, cf) <= 0
 
 //@ func constructSourceComment
